@@ -254,9 +254,15 @@ func (c04) Run(t *tape.Tape, tier Tier) *Result {
 	if (tier == Thorough || t.Bool(1, 4)) && len(res.Violations) == 0 && fin.ok {
 		world.Full().Install()
 		data := m1
+		// half of the time the payload messages of the unknown types are
+		// unknown too (their type URLs are renamed along)
+		withPayloads := t.Bool(1, 2)
+		if withPayloads {
+			sim.Stats.Faults["payload-type=unknown"]++
+		}
 		for j := 1; j <= m && res.Trouble == "" && len(res.Violations) == 0; j++ {
 			prof := sim.Procs[j].Prof
-			in, err := world.RenameFamilies(data, func(f string) bool { return !prof.Knows(f) }, true)
+			in, err := world.RenameFamiliesAndPayloads(data, func(f string) bool { return !prof.Knows(f) }, true, withPayloads)
 			if err != nil {
 				res.Trouble = "rename: " + err.Error()
 				break
@@ -282,7 +288,7 @@ func (c04) Run(t *tape.Tape, tier Tier) *Result {
 				res.Trouble = "rename-xcheck encode: " + p2
 				break
 			}
-			if data, err = world.RenameFamilies(out, nil, false); err != nil {
+			if data, err = world.RenameFamiliesAndPayloads(out, nil, false, withPayloads); err != nil {
 				res.Trouble = "rename back: " + err.Error()
 			}
 		}
